@@ -301,6 +301,9 @@ func inputTags(c Case, data [][]byte) (tags map[string]bool, nontrivial bool) {
 					tags["mix-nonzero"] = true
 				}
 			}
+			if len(o.Ch) != len(o.Fr) {
+				tags["mix-length-mismatch"] = true
+			}
 			for _, ch := range o.Ch {
 				if ch%2 == 0 || ch < 0 || ch >= 2*c.Ncols*c.Nrows {
 					tags["mix-illegal-channel"] = true
@@ -591,7 +594,7 @@ func main() {
 		},
 		Header:   "From Dastard Require Import Common.ZX Common.CaseLib C04.Base C04.Model C04.Spec C04.Run.",
 		Verdict:  "verdict",
-		PerShard: 24,
+		PerShard: 16,
 		Isolate:  true,
 		Chunk:    8,
 		Workers:  40,
